@@ -32,6 +32,7 @@ def run(ck):
     ck.rule("C18.R4", "log emission only until a collector is installed; at most one per path", floor=100)
     ck.rule("C18.R5", "`a collector has been installed` is sticky: set by both install paths, has_been_set() reads only that flag", floor=3)
     ck.rule("C18.R7", "normalized_metadata carries target, file, line and module path each from its own log field, independently", floor=1)
+    ck.rule("C18.R10", "with `log`, enter/exit records come from Span::do_enter/do_exit: Instrumented polls through them for every span, enabled or not (as C17.R3)", floor=1)
     ck.rule("C18.R9", "EnteredSpan::exit exits once: the guard it consumes is left holding Span::none(), so its Drop has nothing to exit or log", floor=2)
     ck.rule("C18.R6", "LogTracer builder options accumulate: no builder call discards an ignored prefix or the max level", floor=3)
     F = Facts("default")
@@ -46,6 +47,8 @@ def run(ck):
     r3(ck, F)
     r4(ck)
     r9(ck)
+    from rules import C17
+    C17.r3_lib(ck, Facts("log"), rid="C18.R10")
 
 
 def r9(ck):
